@@ -23,6 +23,9 @@ PROFILES = {
     "quota":        dict(args="-t ext4 -b 1024 -g 2048 -N 1024 -O quota,project,metadata_csum -J size=1", kb=8192, finish_fsck=True),
     "sparse2":      dict(args="-t ext4 -b 1024 -g 1024 -N 1024 -O sparse_super2,^resize_inode,metadata_csum -J size=1", kb=8192),
     "ino128":       dict(args="-t ext3 -b 1024 -g 2048 -N 1024 -I 128 -J size=1", kb=8192),
+    # like ext4_1k, then 14 files removed again: free inodes and blocks inside the first groups (resize2fs must move the
+    # inodes of a dropped group into those holes; the last inode of the last kept group is in use)
+    "holes":        dict(args="-t ext4 -b 1024 -g 2048 -N 1024 -O metadata_csum,64bit -J size=1", kb=8192, holes=True),
     "nojournal":    dict(args="-t ext4 -b 2048 -g 2048 -N 1024 -O ^has_journal,metadata_csum", kb=16384, bs=2048),
 }
 
@@ -123,6 +126,10 @@ def make_one(build, name, outdir, tree):
     if prof.get("finish_fsck"):
         rc, out, err = run([fsck, "-fy", img], env=env, timeout=120)
         info["finish_fsck_rc"] = rc
+    if prof.get("holes"):
+        cmds = "".join("rm /deep/%s\n" % (("n%04d_" % i) + "y" * 244) for i in range(3, 40, 3)) + "rm /mid/m000\nrm /lin/f2\n"
+        rc, out, err = run([os.path.join(build, "debugfs", "debugfs"), "-w", "-f", "-", img], env=env, timeout=120, input=cmds.encode())
+        info["holes_rc"] = rc
     # mke2fs -d builds linear directories; -D re-indexes them so that the images contain real htree directories
     rc, out, err = run([fsck, "-fyD", img], env=env, timeout=120)
     info["rehash_rc"] = rc
